@@ -1,5 +1,6 @@
 import Shuttle.Model.StdLib
 import Shuttle.Lemmas.BBox
+import Shuttle.Lemmas.SubGrid
 /-!
 # C14 — library builders produce the documented geometry
 
@@ -121,5 +122,185 @@ theorem C14_gemini_caps :
 example : (twoCol 2 1 10 2).map (fun s => s.layout.staticTraps.map fun p => (p.1, p.2.xPositions)) =
     some [("traps", [0, 2, 12, 14]), ("left_traps", [0, 12]), ("right_traps", [2, 14])] := by
   decide +kernel
+
+end Shuttle.Props.C14
+
+namespace Shuttle.Props.C14
+open Shuttle StdLib
+
+/-! ### two-column builder, all sizes: the left / right partition -/
+
+theorem sumRat_replicate (s : Rat) : ∀ n : Nat, sumRat (List.replicate n s) = (n : Rat) * s := by
+  intro n
+  induction n with
+  | zero => simp [sumRat]
+  | succ k ih => rw [List.replicate_succ, sumRat_cons, ih]; push_cast; grind
+
+theorem posAt_replicate (s : Rat) (m j : Nat) (h : j ≤ m) : posAt 0 (List.replicate m s) j = (j : Rat) * s := by
+  simp only [posAt, List.take_replicate, Nat.min_eq_left h, sumRat_replicate]; grind
+
+/-- prefix sums of the two-column spacing `gs, s, gs, s, …, gs` -/
+theorem sum_pairs_even (gs s : Rat) : ∀ (k n : Nat), k ≤ n →
+    sumRat ((pairs gs s n ++ [gs]).take (2 * k)) = (k : Rat) * (gs + s) := by
+  intro k
+  induction k with
+  | zero => intro n _; simp [sumRat]
+  | succ k ih =>
+    intro n hn
+    cases n with
+    | zero => omega
+    | succ n =>
+      have : 2 * (k + 1) = (2 * k) + 1 + 1 := by omega
+      rw [this]
+      simp only [pairs, List.cons_append, List.take_succ_cons, sumRat_cons]
+      rw [ih n (by omega)]
+      push_cast; grind
+
+theorem sum_pairs_odd (gs s : Rat) : ∀ (k n : Nat), k ≤ n →
+    sumRat ((pairs gs s n ++ [gs]).take (2 * k + 1)) = (k : Rat) * (gs + s) + gs := by
+  intro k
+  induction k with
+  | zero =>
+    intro n _
+    cases n with
+    | zero => simp [pairs, sumRat]
+    | succ n => simp [pairs, sumRat_cons, sumRat]
+  | succ k ih =>
+    intro n hn
+    cases n with
+    | zero => omega
+    | succ n =>
+      have : 2 * (k + 1) + 1 = (2 * k + 1) + 1 + 1 := by omega
+      rw [this]
+      simp only [pairs, List.cons_append, List.take_succ_cons, sumRat_cons]
+      rw [ih n (by omega)]
+      push_cast; grind
+
+theorem pairs_length (gs s : Rat) : ∀ n, (pairs gs s n).length = 2 * n
+  | 0 => rfl
+  | n + 1 => by simp [pairs, pairs_length gs s n]; omega
+
+theorem ascLe_map_range' (n : Nat) (f : Nat → Nat) (hmono : ∀ i, f i ≤ f (i + 1)) :
+    ∀ (m a : Nat), (∀ i, i < a + m → f i ≤ n) → AscLe n ((List.range' a m).map f) := by
+  intro m
+  induction m with
+  | zero => intro a _; simp [AscLe]
+  | succ m ih =>
+    intro a hb
+    cases m with
+    | zero => simp [List.range', AscLe]; exact hb a (by omega)
+    | succ m =>
+      have := ih (a + 1) (by intro i hi; exact hb i (by omega))
+      simp only [List.range'_succ, List.map_cons] at this ⊢
+      exact ⟨hmono a, this⟩
+
+theorem ascLe_map_range (n m : Nat) (f : Nat → Nat) (hmono : ∀ i, f i ≤ f (i + 1)) (hb : ∀ i, i < m → f i ≤ n) :
+    AscLe n ((List.range m).map f) := by
+  rw [List.range_eq_range']
+  exact ascLe_map_range' n f hmono m 0 (by simpa using hb)
+
+theorem range2_even (nx : Nat) : range2 0 ((nx : Int) * 2) = ((List.range nx).map (2 * ·)).map Int.ofNat := by
+  unfold range2
+  have : (((nx : Int) * 2 - 0 + 1) / 2).toNat = nx := by omega
+  rw [this, List.map_map]
+  apply List.map_congr_left
+  intro k _
+  simp
+
+theorem range2_odd (nx : Nat) : range2 1 ((nx : Int) * 2) = ((List.range nx).map (2 * · + 1)).map Int.ofNat := by
+  unfold range2
+  have : (((nx : Int) * 2 - 1 + 1) / 2).toNat = nx := by omega
+  rw [this, List.map_map]
+  apply List.map_congr_left
+  intro k _
+  simp; omega
+
+theorem rangeI_nat (ny : Nat) : rangeI (ny : Int) = (List.range ny).map Int.ofNat := by
+  simp [rangeI]
+
+end Shuttle.Props.C14
+
+namespace Shuttle.Props.C14
+open Shuttle StdLib
+
+/-- **two-column builder, all sizes**: `left_traps` are the columns at `k·(gate_spacing + spacing)`, `right_traps` the
+columns `gate_spacing` to their right (so the two zones partition the column pairs of `traps`, partners exactly
+`gate_spacing` apart), and both have the rows `j·spacing`. -/
+theorem C14_two_col_sites (nx ny : Nat) (s gs : Rat) (hx : 1 ≤ nx) (hy : 1 ≤ ny) :
+    ∃ all left right, twoCol nx ny s gs =
+        some { layout := ⟨[("traps", all), ("left_traps", left), ("right_traps", right)], ["left_traps"], ["traps"], ["traps"], []⟩,
+               floatC := [], intC := [] } ∧
+      left.xPositions = (List.range nx).map (fun (k : Nat) => (k : Rat) * (gs + s)) ∧
+      right.xPositions = (List.range nx).map (fun (k : Nat) => (k : Rat) * (gs + s) + gs) ∧
+      left.yPositions = (List.range ny).map (fun (j : Nat) => (j : Rat) * s) ∧
+      right.yPositions = (List.range ny).map (fun (j : Nat) => (j : Rat) * s) ∧
+      (∀ p ∈ left.positions, p ∈ all.positions) ∧ (∀ p ∈ right.positions, p ∈ all.positions) := by
+  let all : Grid := ⟨pairs gs s (nx - 1) ++ [gs], List.replicate (ny - 1) s, some 0, some 0⟩
+  have hxl : all.xSpacing.length = 2 * nx - 1 := by simp [all, pairs_length]; omega
+  have hyl : all.ySpacing.length = ny - 1 := by simp [all]
+  have e1 : ((nx : Int) - 1).toNat = nx - 1 := by omega
+  have e2 : ((ny : Int) - 1).toNat = ny - 1 := by omega
+  have aX0 : AscLe all.xSpacing.length ((List.range nx).map (2 * ·)) :=
+    ascLe_map_range _ nx _ (by intro i; omega) (by intro i hi; rw [hxl]; omega)
+  have aX1 : AscLe all.xSpacing.length ((List.range nx).map (2 * · + 1)) :=
+    ascLe_map_range _ nx _ (by intro i; omega) (by intro i hi; rw [hxl]; omega)
+  have aY : AscLe all.ySpacing.length ((List.range ny).map id) :=
+    ascLe_map_range _ ny _ (by intro i; simp) (by intro i hi; rw [hyl]; simp; omega)
+  simp only [List.map_id] at aY
+  -- the two views exist
+  have hne : ∀ (m : Nat) (f : Nat → Nat), 1 ≤ m → ((List.range m).map f).map Int.ofNat ≠ [] := by
+    intro m f hm h
+    have := congrArg List.length h
+    simp at this; omega
+  have hL : ∃ left, all.subGrid (((List.range nx).map (2 * ·)).map Int.ofNat) ((List.range ny).map Int.ofNat) = some left := by
+    unfold Grid.subGrid
+    have h1 := hne nx (2 * ·) hx
+    have h2 : (List.range ny).map Int.ofNat ≠ [] := by
+      intro h; have := congrArg List.length h; simp at this; omega
+    simp [List.isEmpty_iff]
+    omega
+  have hR : ∃ right, all.subGrid (((List.range nx).map (2 * · + 1)).map Int.ofNat) ((List.range ny).map Int.ofNat) = some right := by
+    unfold Grid.subGrid
+    have h1 := hne nx (2 * · + 1) hx
+    have h2 : (List.range ny).map Int.ofNat ≠ [] := by
+      intro h; have := congrArg List.length h; simp at this; omega
+    simp [List.isEmpty_iff]
+    omega
+  obtain ⟨left, hleft⟩ := hL
+  obtain ⟨right, hright⟩ := hR
+  obtain ⟨lx, ly⟩ := subGrid_positions all left 0 0 _ _ rfl rfl aX0 aY hleft
+  obtain ⟨rx, ry⟩ := subGrid_positions all right 0 0 _ _ rfl rfl aX1 aY hright
+  refine ⟨all, left, right, ?_, ?_, ?_, ?_, ?_, ?_, ?_⟩
+  · simp only [twoCol, rep, e1, e2, range2_even, range2_odd, rangeI_nat, Option.bind_eq_bind]
+    show (all.subGrid _ _).bind _ = _
+    rw [hleft]
+    simp only [Option.bind_some]
+    show (all.subGrid _ _).bind _ = _
+    rw [hright]
+    rfl
+  · rw [lx, List.map_map]
+    apply List.map_congr_left
+    intro k hk
+    have hk' : k < nx := List.mem_range.1 hk
+    simp only [Function.comp_apply, posAt, all, sum_pairs_even gs s k (nx - 1) (by omega)]
+    grind
+  · rw [rx, List.map_map]
+    apply List.map_congr_left
+    intro k hk
+    have hk' : k < nx := List.mem_range.1 hk
+    simp only [Function.comp_apply, posAt, all, sum_pairs_odd gs s k (nx - 1) (by omega)]
+    grind
+  · rw [ly]
+    apply List.map_congr_left
+    intro j hj
+    have hj' : j < ny := List.mem_range.1 hj
+    exact posAt_replicate s (ny - 1) j (by omega)
+  · rw [ry]
+    apply List.map_congr_left
+    intro j hj
+    have hj' : j < ny := List.mem_range.1 hj
+    exact posAt_replicate s (ny - 1) j (by omega)
+  · exact subGrid_sites_subset all left 0 0 _ _ rfl rfl aX0 aY hleft
+  · exact subGrid_sites_subset all right 0 0 _ _ rfl rfl aX1 aY hright
 
 end Shuttle.Props.C14
